@@ -270,6 +270,37 @@ Proof.
   rewrite after_app, Hf0. exact Hf.
 Qed.
 
+(** The same for any interleaving of step_simulation() calls and requests made from outside the
+    callbacks (commands "issued at arbitrary times"). *)
+Theorem whole_drive_moves (c : kcfg F) ops ps0 :
+  let '(s0, i0) := sim_start A cfg ps0 in
+  let '(s', items) := sim_drive A cfg react c ops s0 in
+  after m_next m0 (i0 ++ items) = mkM (s_pos (k_h s')) (s_tgt (k_h s')) (s_speed (k_h s')).
+Proof.
+  unfold sim_start.
+  pose proof (k_start_sound A m_next m_ok m_abs m_sched_neutral m_refused_neutral (sim_state0 cfg ps0) (sim_reqs0 A cfg)) as H0.
+  assert (Hh : k_h (fst (k_start A (T:=titem F) (sim_state0 cfg ps0) (sim_reqs0 A cfg))) = sim_state0 cfg ps0).
+  { unfold k_start. destruct (sched_all A (el_init A) (sim_reqs0 A cfg)). reflexivity. }
+  destruct (k_start A (T:=titem F) (sim_state0 cfg ps0) (sim_reqs0 A cfg)) as [s0 i0]. simpl in Hh, H0.
+  assert (Hd : forall ops s, let '(s', items) := sim_drive A cfg react c ops s in sound (m_abs (k_h s)) items (m_abs (k_h s'))).
+  { clear. induction ops as [|o r IH]; intros s; simpl; [apply sound_nil|].
+    assert (H1 : let '(s1, it, _) := sim_drive1 A cfg react c s o in sound (m_abs (k_h s)) it (m_abs (k_h s1))).
+    { destruct o as [|n acts]; simpl.
+      - pose proof (k_step_sound A hooks c m_next m_ok m_abs m_inv m_sched_neutral m_refused_neutral
+                      sim_init_moves sim_exec_moves sim_after_moves sim_finish_moves s I) as Hs.
+        destruct (k_step A hooks c s) as [[s1 it] b]. exact (proj2 Hs).
+      - unfold sim_external.
+        pose proof (do_actions_moves (k_h s) (el_now (k_el s)) n acts) as Hd.
+        destruct (do_actions A cfg (k_h s) (el_now (k_el s)) n acts) as [[h1 q] t].
+        pose proof (sched_all_sound A m_next m_ok m_abs m_sched_neutral m_refused_neutral (k_el s) q h1) as Hr.
+        destruct (sched_all A (k_el s) q) as [l1 ref]. simpl in *. eapply sound_app; eassumption. }
+    destruct (sim_drive1 A cfg react c s o) as [[s1 it] rb].
+    specialize (IH s1). destruct (sim_drive A cfg react c r s1) as [s2 its]. eapply sound_app; eassumption. }
+  specialize (Hd ops s0). destruct (sim_drive A cfg react c ops s0) as [s' items]. destruct Hd as [_ Hf].
+  destruct H0 as [_ Hf0]. rewrite Hh in *. change (m_abs (sim_state0 cfg ps0)) with m0 in *.
+  rewrite after_app, Hf0. exact Hf.
+Qed.
+
 (* ---- reading the update (facts about the specification alone) -------------------------------------- *)
 
 Lemma nth_upd_eq {X : Type} (l : list X) n (x d : X) : n < length l -> nth n (upd n x l) d = x.
